@@ -1,5 +1,6 @@
 SPECIFICATION TSpec
 CONSTANTS
+ EarlyTailError = TRUE
  MaxReinit = 5
  CountCalls = TRUE
  NW <- TrNW  HdrSz <- TrHdrSz  Blocks <- TrBlocks  TailSz <- TrTailSz  TailOk <- TrTailOk  FileLen <- TrFileLen
